@@ -1,5 +1,5 @@
 # C15 — token failures are retried only when safe and reported faithfully
-import json
+import base64, json, threading
 
 FP = ["token/worker:", "cmdline/workercmd:", "token/tokencache:", "internal/httperror:"]
 TRANSIENT_HTTP = {500, 502, 503, 504, 507}
@@ -14,20 +14,502 @@ def oracle_temp(o):
     if k == 4: return False
     return None
 
+
+# ======================================================================================================================
+# extensions: timed retry, RPC boundary, cache under retries / forced interleavings, worker pool lifecycle
+# ======================================================================================================================
+TOL_MS = 180          # wall-clock tolerance for instants measured in the driver (timers, goroutine scheduling)
+
+def b64(x):
+    return base64.b64decode(x) if x else b""
+
+# two defects this check found (repaired in relic by add50a2 and bc5e511; the inputs stay as regression cases). Were they to
+# come back they must not mask a broken obligation or a model/implementation difference
+LATENT = ("C15:rpc:empty-error-text-reported-as-success", "C15:rpc:wrapped-error-loses-classification")
+
+def other_failing_input(ctx):
+    return any(v[2] and v[3] not in LATENT for v in ctx.violations)
+
+def _corr(ctx, key, msg, obj, cmd, counter):
+    counter[0] += 1
+    if len(ctx.notes) < 8:
+        ctx.notes.append("model/implementation difference (%s): %s" % (key, msg[:300]))
+    if counter[0] <= 3 and not other_failing_input(ctx):
+        ctx.violation("C15:correspondence:" + key, msg, dict(obj, cmd=cmd, broken="correspondence C15.Run"), False)
+
+def seen_out(c, i):
+    """what doRetry saw for attempt i, from the transport's side"""
+    a = c["atts"][i]
+    if a["cut"]:
+        return (2, 2) if a["ctx_err"] == 1 else (2, 3)
+    o = tuple(c["script"][i]["out"]) if i < len(c["script"]) else (2, 9)
+    return o
+
+def oracle_timed(ctx, cases, distinct):
+    """model-free, from the property text: at most the configured attempts; success only if an attempt succeeded; a permanent
+    failure ends the operation at once and is returned as it is; transient failures are retried with (growing) backoff while
+    attempts remain; no retry starts once the caller's context has ended and the operation returns promptly."""
+    n = 0
+    for c in cases:
+        n += 1
+        distinct.add("timed:" + json.dumps([c["retries"], c["timeout_s"], c["script"], c["ctx_at_ms"], c["ctx_kind"]]))
+        R = c["retries"] if c["retries"] > 0 else 5
+        atts, A = c["atts"] or [], c["ctx_at_ms"]
+        rp = {"cmd": "c15timed", "cases": [c]}
+        if len(atts) > R:
+            ctx.violation("C15:spec:too-many-attempts", "%d attempts with retry limit %d" % (len(atts), R), rp)
+        if c["result"] == 3:
+            ctx.violation("C15:spec:nil-nil", "operation returned (nil, nil)", rp)
+        if not atts:
+            continue
+        to_ms = (c["timeout_s"] if c["timeout_s"] != 0 else 60) * 1000
+        seen = [seen_out(c, i) for i in range(len(atts))]
+        last = seen[-1]
+        if c["result"] == 0 and last[0] != 0:
+            ctx.violation("C15:spec:false-success", "success reported but the last attempt ended as %s" % (last,), rp)
+        for i, o in enumerate(seen):
+            t = oracle_temp(o)
+            if o[0] != 0 and t is False and i != len(atts) - 1:
+                ctx.violation("C15:spec:permanent-retried", "attempt %d ended with the permanent outcome %s and was followed by another attempt" % (i + 1, o), rp)
+            if (o[0] == 0 or t is False) and i == len(atts) - 1 and o[0] != 0:
+                exp = (2, 0) if o == (2, 9) else o
+                if c["result"] != 1 or tuple(c["err_out"]) != exp:
+                    ctx.violation("C15:spec:classification-lost", "permanent error %s came back as result %d %s" % (o, c["result"], c["err_out"]), rp)
+        if A >= 0:
+            for i, a in enumerate(atts[1:], 1):
+                # the generated instants keep 150 ms away from every start of the regular timeline
+                if a["start_ms"] >= A - 20:
+                    ctx.violation("C15:spec:attempt-after-cancel", "attempt %d started %d ms after the caller's context ended" % (i + 1, a["start_ms"] - A), rp)
+            if c["return_ms"] > max(A, 0) + 2 * TOL_MS:
+                ctx.violation("C15:spec:cancel-not-prompt", "returned %d ms after the caller's context ended" % (c["return_ms"] - A), rp)
+            if c["result"] == 2 and c["ctx_kind"] != 0:
+                ctx.violation("C15:spec:classification-lost", "a deadline came back as a cancellation", rp)
+        else:
+            if c["result"] == 2:
+                ctx.violation("C15:spec:classification-lost", "cancellation reported although the caller's context never ended", rp)
+            if oracle_temp(last) and len(atts) < R:
+                ctx.violation("C15:spec:transient-not-retried", "the last of %d attempts failed transiently (%s) with %d attempts allowed" % (len(atts), last, R), rp)
+        gaps = [atts[i + 1]["start_ms"] - atts[i]["end_ms"] for i in range(len(atts) - 1)]
+        if any(g < 200 for g in gaps) or any(gaps[i + 1] < gaps[i] - TOL_MS for i in range(len(gaps) - 1)):
+            ctx.violation("C15:spec:no-backoff", "delays between attempts %s ms: not a growing backoff" % gaps, rp)
+        # the error that comes back is the last attempt's, or the context's
+        if c["result"] in (1, 2) and last[0] != 0:
+            got = tuple(c["err_out"])
+            ok = got == ((2, 0) if last == (2, 9) else last) or (A >= 0 and got == ((2, 2) if c["ctx_kind"] == 0 else (2, 3)))
+            if not ok:
+                ctx.violation("C15:spec:classification-lost", "the last attempt ended as %s but the caller got %s" % (last, got), rp)
+    return n
+
+def corr_timed(ctx, cases):
+    if not cases:
+        return 0
+    cnt = [0]
+    def mo(o):
+        return [o[0], o[1]] if o[0] in (1, 2, 3) else [o[0]]
+    vals = [[3, c["retries"], c["timeout_s"], [c["ctx_at_ms"] * 1000000 if c["ctx_at_ms"] >= 0 else -1, c["ctx_kind"]],
+             [[mo(a["out"]), a["dur_ms"] * 1000000] for a in c["script"]]] for c in cases]
+    for c, m in zip(cases, ctx.run_model(vals)):
+        code, arg, end_ns, atts = m
+        obs = c["atts"] or []
+        rp = {"cases": [c], "model": str(m)[:600]}
+        if len(atts) != len(obs):
+            _corr(ctx, "timed-attempts", "timed retry (%s, limit %d, script %s, context ends at %d ms): model makes %d attempts %s, implementation %d %s" %
+                  (c["kind"], c["retries"], [(a["out"], a["dur_ms"]) for a in c["script"]], c["ctx_at_ms"], len(atts), str(atts)[:200], len(obs), obs), rp, "c15timed", cnt)
+            continue
+        bad = None
+        for i, (ma, oa) in enumerate(zip(atts, obs)):
+            ms, me, mout = ma[0] / 1e6, ma[1] / 1e6, tuple(int(x) for x in ma[2])
+            tol = TOL_MS + 0.01 * ms
+            so = seen_out(c, i)
+            so = (so[0], 0) if so[0] in (0, 4) else so
+            if abs(oa["start_ms"] - ms) > tol or abs(oa["end_ms"] - me) > tol:
+                bad = "attempt %d: model [%d, %d] ms, implementation [%d, %d] ms" % (i + 1, ms, me, oa["start_ms"], oa["end_ms"])
+            elif so != mout and not (so[0] == 2 and mout[0] == 2 and so[1] in (0, 9) and mout[1] in (0, 9)):
+                bad = "attempt %d: model outcome %s, implementation %s" % (i + 1, mout, so)
+        exp_res = {0: 0, 1: 1, 2: 2}.get(code, 9)
+        exp_out = [int(x) for x in arg] if arg else [0, 0]
+        if code == 2:
+            exp_out = [2, exp_out[0]]
+            exp_res = 2 if exp_out[1] == 2 else 1
+        if code == 1 and exp_out == [2, 2]:
+            exp_res = 2
+        got_out = list(c["err_out"])
+        if exp_res != c["result"]:
+            bad = bad or "model result %d %s, implementation %d %s" % (exp_res, exp_out, c["result"], got_out)
+        elif exp_res in (1, 2) and exp_out[0] != 0 and (exp_out[0], exp_out[1] if exp_out[0] in (1, 2, 3) else 0) != (got_out[0], got_out[1] if got_out[0] in (1, 2, 3) else 0) \
+                and not (exp_out[0] == 2 and got_out[0] == 2 and exp_out[1] in (0, 9) and got_out[1] in (0, 9)):
+            bad = bad or "model error %s, implementation %s" % (exp_out, got_out)
+        if abs(c["return_ms"] - end_ns / 1e6) > TOL_MS + 0.01 * end_ns / 1e6:
+            bad = bad or "model returns at %d ms, implementation at %d ms" % (end_ns / 1e6, c["return_ms"])
+        if bad:
+            _corr(ctx, "timed", "timed retry: " + bad, rp, "c15timed", cnt)
+    return cnt[0]
+
+# ---------------------------------------------------------------------------------------------------------------- RPC
+def err_chain(e):
+    out = []
+    while e:
+        out.append(e)
+        e = e.get("inner")
+    return out
+
+def spec_class(e):
+    """from the property text + errors.As semantics (what the relic server and the retry loop use): key usage and other permanent
+    errors keep their classification; a fatal token error is transient; anything else is the worker's call"""
+    ch = err_chain(e)
+    for x in ch:
+        if x["code"] == 3:
+            return ("usage", x.get("key", ""), x.get("msg", ""))
+    for x in ch:
+        if x["code"] == 2:
+            return ("permanent",)
+    if e["code"] == 1:
+        return ("transient",) if e.get("fatal") else ("permanent",)
+    return ("any",)
+
+GO_TEXT = {1: {True: "pkcs11: 0x32: CKR_DEVICE_REMOVED", False: "pkcs11: 0xA0: CKR_PIN_INCORRECT"}, 2: "operation x not implemented for tokens of type y"}
+def model_terr(e):
+    if e["code"] == 1:
+        return [1, bool(e.get("fatal")), GO_TEXT[1][bool(e.get("fatal"))].encode()]
+    if e["code"] == 2:
+        return [2, GO_TEXT[2].encode()]
+    if e["code"] == 3:
+        return [3, e.get("key", "").encode(), e.get("msg", "").encode()]
+    if e["code"] == 4:
+        return [4, e.get("msg", "").encode(), model_terr(e["inner"])]
+    return [5, e.get("msg", "").encode()]
+
+def stage_error(c):
+    """the error the scripted token returns for this case's method (None: it succeeds)"""
+    m = c["method"]
+    if m == "/ping":
+        return c["ping"].get("err")
+    if m == "/getKey":
+        return c["getkey"].get("err")
+    if m == "/sign":
+        return c["getkey"].get("err") or c["sign"].get("err")
+    return None
+
+def oracle_rpc(ctx, cases, distinct):
+    n = 0
+    for c in cases:
+        n += 1
+        rp = {"cmd": "c15rpc", "cases": [c]}
+        if c["kind"] == "session":
+            calls = c.get("calls") or []
+            idb = c.get("id")
+            if c.get("err") or [x["op"] for x in calls] != [2, 2, 3] or calls[0].get("pin") or calls[1].get("pin") != idb or calls[2].get("pin") != idb:
+                ctx.violation("C15:spec:session-pin", "signing session: the key id reported by GetKey is not the one pinned on the signing request: %s" % calls, rp)
+            continue
+        distinct.add("rpc:" + json.dumps([c["kind"], c["method"], c["cookie"], c["body"][:40], c["ping"], c["getkey"].get("err"), c["sign"].get("err"), c["salt"], c["retries"]]))
+        calls = c.get("calls") or []
+        if c["cookie"] != "right":
+            if c["status"] != 403 or calls:
+                ctx.violation("C15:spec:cookie-gate", "request without the secret (%s): status %d, token calls %s" % (c["cookie"], c["status"], calls), rp)
+            continue
+        if c["kind"] in ("malformed", "method"):
+            if calls:
+                ctx.violation("C15:spec:malformed-reached-token", "%s request (%s %r) reached the token: %s" % (c["kind"], c["method"], c["body"][:30], calls), rp)
+            continue
+        if c["raw"]:
+            continue
+        e = stage_error(c)
+        seen = c["seen"]
+        if e is None:
+            if seen["kind"] != 0:
+                ctx.violation("C15:spec:success-lost", "the token succeeded but the caller got %s" % seen, rp)
+                continue
+            if c["method"] == "/getKey" and (b64(seen.get("id")) != b64(c["getkey"].get("id")) or b64(seen.get("cert")) != b64(c["getkey"].get("cert")) or not c["pub_ok"]):
+                ctx.violation("C15:spec:value-roundtrip", "GetKey values changed on the way: %s" % seen, rp)
+            if c["method"] == "/sign" and b64(seen.get("value")) != b64(c["sign"].get("sig")):
+                ctx.violation("C15:spec:value-roundtrip", "the signature changed on the way", rp)
+            want_ops = {"/ping": [1], "/getKey": [2], "/sign": [2, 3]}[c["method"]]
+            if [x["op"] for x in calls][-len(want_ops):] != want_ops:
+                ctx.violation("C15:spec:wrong-operation", "method %s performed token operations %s" % (c["method"], calls), rp)
+            if c["method"] == "/sign":
+                sg = calls[-1]
+                pin = b64(c.get("keyid")) if c["has_keyid"] else b""
+                if b64(sg.get("digest")) != b64(c.get("digest")) or sg.get("hash", 0) != c["hash"] or sg["salt"] != c["salt"] or b64(calls[-2].get("pin")) != pin or calls[-2].get("name") != c["keyname"]:
+                    ctx.violation("C15:spec:request-roundtrip", "the signing request changed on the way: %s" % calls, rp)
+            continue
+        # the token failed
+        sc = spec_class(e)
+        if c["kind"] == "retry":
+            # the first answer fails with e, the second one succeeds: transient classes are retried once and succeed, the
+            # others come back at once with their classification
+            if sc[0] in ("transient", "any"):
+                if sc[0] == "transient" and (c["exchanges"] != 2 or seen["kind"] != 0):
+                    ctx.violation("C15:spec:transient-not-retried", "fatal token error: %d exchanges, caller got %s" % (c["exchanges"], seen), rp)
+                if seen["kind"] == 0 and c["exchanges"] < 2:
+                    ctx.violation("C15:rpc:empty-error-text-reported-as-success", "the token failed (%s) but the operation reported success at once" % (e,), rp)
+                continue
+        if seen["kind"] == 0:
+            # regression input of bc5e511: the reply encodes "failed" as a non-empty Err text; an error without a text must still
+            # come back as an error
+            ctx.violation("C15:rpc:empty-error-text-reported-as-success", "the token failed (%s) but the operation reported success" % (e,), rp)
+            continue
+        wrapped = e["code"] == 4
+        # (a key usage error without a message keeps class and key; its message may be a placeholder)
+        if sc[0] == "usage" and (seen["kind"] != 1 or seen.get("key", "") != sc[1] or (seen.get("msg", "") != sc[2] and (sc[2] != "" or not seen.get("msg"))) or seen["temporary"]):
+            ctx.violation("C15:rpc:wrapped-error-loses-classification" if wrapped else "C15:spec:usage-flag",
+                          "key usage error %s came back as %s" % (e, seen), rp)
+        elif sc[0] == "permanent" and seen["temporary"]:
+            ctx.violation("C15:rpc:wrapped-error-loses-classification" if wrapped else "C15:spec:classification-lost",
+                          "permanent error %s came back as retryable: %s" % (e, seen), rp)
+        elif sc[0] == "transient" and not seen["temporary"]:
+            ctx.violation("C15:spec:classification-lost", "fatal token error came back as permanent: %s" % seen, rp)
+        if c["kind"] == "retry" and sc[0] in ("usage", "permanent") and c["exchanges"] != 1:
+            ctx.violation("C15:spec:permanent-retried", "%s error was retried (%d exchanges)" % (sc[0], c["exchanges"]), rp)
+        if c["kind"] == "retry" and sc[0] == "transient" and (c["exchanges"] != 2 or seen["kind"] != 0):
+            ctx.violation("C15:spec:transient-not-retried", "fatal token error: %d exchanges, caller got %s" % (c["exchanges"], seen), rp)
+    return n
+
+def body_request(c):
+    """the request the handler parses out of a raw body (None: malformed), following encoding/json: case-insensitive names"""
+    try:
+        d = json.loads(c["body"])
+    except Exception:
+        return None
+    if d is None:
+        d = {}
+    if not isinstance(d, dict):
+        return None
+    low = {k.lower(): v for k, v in d.items()}
+    try:
+        kn = low.get("keyname", "") or ""
+        if not isinstance(kn, str):
+            return None
+        kid = low.get("keyid")
+        has = kid is not None
+        kidb = base64.b64decode(kid, validate=True) if has else b""
+        dg = low.get("digest")
+        dgb = base64.b64decode(dg, validate=True) if dg is not None else b""
+        h = low.get("hash", 0) or 0
+        sl = low.get("saltlength")
+        if not isinstance(h, int) or h < 0 or (sl is not None and not isinstance(sl, int)):
+            return None
+        return [kn.encode(), has, kidb, dgb, h, -1 if sl is None else sl]
+    except Exception:
+        return None
+
+def corr_rpc(ctx, cases):
+    cs = [c for c in cases if c["kind"] != "session" and c["kind"] != "retry"]
+    if not cs:
+        return 0
+    cnt = [0]
+    def ans(a, kind):
+        if a.get("err"):
+            return [1, model_terr(a["err"])]
+        if kind == "ping":
+            return [0]
+        if kind == "getkey":
+            return [0, b64(a.get("id")), b64(a.get("cert")), b"PUB"]
+        return [0, b64(a.get("sig"))]
+    vals = []
+    for c in cs:
+        if not c["raw"]:
+            if c["method"] == "/ping":
+                rq = [b"", False, b"", b"", 0, -1]
+            elif c["method"] == "/getKey":
+                rq = [c["keyname"].encode(), False, b"", b"", 0, -1]
+            else:
+                rq = [c["keyname"].encode(), c["has_keyid"], b64(c.get("keyid")), b64(c.get("digest")), c["hash"], c["salt"]]
+            ok = True
+        else:
+            rq = body_request(c)
+            ok = rq is not None
+            rq = rq or [b"", False, b"", b"", 0, -1]
+        vals.append([4, c["cookie"] == "right", c["method"].encode(), rq, [ans(c["ping"], "ping"), ans(c["getkey"], "getkey"), ans(c["sign"], "sign")], ok])
+    for c, m in zip(cs, ctx.run_model(vals)):
+        cres, calls, status, retryable, usage, outcome = m
+        rp = {"cases": [c], "model": str(m)[:600]}
+        if status != c["status"]:
+            _corr(ctx, "rpc-status", "RPC: model status %d, implementation %d" % (status, c["status"]), rp, "c15rpc", cnt)
+            continue
+        got_calls = [[x["op"]] + ([x.get("name", "").encode().hex(), b64(x.get("pin")).hex()] if x["op"] >= 2 else []) +
+                     ([b64(x.get("digest")).hex(), x.get("hash", 0), x["salt"]] if x["op"] == 3 else []) for x in (c.get("calls") or [])]
+        mod_calls = [[int(x[0])] + [str(y) if not isinstance(y, int) else y for y in x[1:]] for x in calls]
+        if mod_calls != got_calls:
+            _corr(ctx, "rpc-calls", "RPC: the model's token calls %s differ from the implementation's %s" % (mod_calls, got_calls), rp, "c15rpc", cnt)
+            continue
+        if status == 200 and (bool(retryable), bool(usage)) != (c["retryable"], c["usage"]):
+            _corr(ctx, "rpc-flags", "RPC: reply flags: model retryable=%s usage=%s, implementation %s %s" % (retryable, usage, c["retryable"], c["usage"]), rp, "c15rpc", cnt)
+            continue
+        if c["raw"]:
+            continue
+        seen, k = c["seen"], int(cres[0])
+        e = stage_error(c)
+        if k == 0:
+            good = seen["kind"] == 0 and (c["method"] != "/sign" or bytes.fromhex(cres[1]) == b64(seen.get("value"))) and \
+                (c["method"] != "/getKey" or (bytes.fromhex(cres[2]) == b64(seen.get("id")) and bytes.fromhex(cres[3]) == b64(seen.get("cert"))))
+        elif k == 1:
+            good = seen["kind"] == 1 and bytes.fromhex(cres[1]).decode("utf8", "replace") == seen.get("key", "") and bytes.fromhex(cres[2]).decode("utf8", "replace") == seen.get("msg", "")
+        elif k == 2:
+            good = seen["kind"] == 2 and bool(cres[2]) == seen["temporary"] and (e is None or e["code"] == 4 or bytes.fromhex(cres[1]).decode("utf8", "replace") == seen.get("msg", ""))
+        else:
+            good = seen["kind"] == 2 and not seen["temporary"]
+        if not good and c["method"] == "/getKey" and k == 0 and cres[1] == "" and seen["kind"] == 2 and not seen["temporary"]:
+            good = True      # the RPC reported success with an empty value; WorkerToken.GetKey then fails to parse the public key
+        if not good:
+            _corr(ctx, "rpc-client", "RPC: the model's client result %s differs from the implementation's %s" % (cres, seen), rp, "c15rpc", cnt)
+    return cnt[0]
+
+# ---------------------------------------------------------------------------------------- cache: interleavings, retries
+def oracle_sched(ctx, cases, distinct):
+    n = 0
+    for c in cases:
+        n += 1
+        rp = {"cmd": "c15sched", "cases": [c]}
+        if c["kind"] == "retry-cache":
+            distinct.add("rc:" + json.dumps([c["fails"], c["pin"], c["rotate"], c["transient"], c["warm"]]))
+            cur = "B" if c["rotate"] else "A"
+            if c["ok"] and c["pin"] and c["got_id"] != c["pin"]:
+                ctx.violation("C15:spec:pinned-id", "retried lookup pinned to %s was answered with key %s" % (c["pin"], c["got_id"]), rp)
+            allowed = {cur} | ({"A"} if c["warm"] else set()) | ({c["got_id"]} if c["ok"] and not c["pin"] else set())
+            if c["later"]["ok"] and c["later"]["id"] not in allowed:
+                ctx.violation("C15:spec:cache-poisoned", "after a retried lookup (pin %r, %d failures) an un-pinned lookup was served key %s; only %s can be explained" % (c["pin"], c["fails"], c["later"]["id"], sorted(allowed)), rp)
+            if not c["later"]["ok"]:
+                ctx.violation("C15:spec:cache-poisoned", "after failed attempts a later lookup fails although the token answers", rp)
+            continue
+        distinct.add("sched:" + json.dumps([c["kind"], c["expiry_ms"], c["prefill"]]))
+        if c["hung"]:
+            ctx.violation("C15:spec:lookup-hung", "a lookup did not return in the interleaving %s" % c["kind"], rp)
+            continue
+        for who, pin in (("first", c["first_pin"]), ("second", c["second_pin"])):
+            r = c[who]
+            if pin and r["ok"] and r["id"] != pin:
+                ctx.violation("C15:spec:pinned-id-inflight", "interleaving %s: the lookup pinned to key id %s was answered with key %s (a lookup of the same alias was in flight inside the token)" % (c["kind"], pin, r["id"]), rp)
+    return n
+
+def corr_retry_cache(ctx, cases):
+    cs = [c for c in cases if c["kind"] == "retry-cache"]
+    if not cs:
+        return 0
+    cnt = [0]
+    vals, plans = [], []
+    for c in cs:
+        cur = "B" if c["rotate"] else "A"
+        ans = (c["pin"] or cur).encode()
+        ops = []
+        if c["warm"]:
+            ops.append([b"", 0, True, b"A"])
+        natt = c["retries"] if c["transient"] else 1
+        for j in range(natt):
+            fail = j < c["fails"]
+            ops.append([c["pin"].encode(), j + 1, not fail, b"" if fail else ans])
+        ops.append([b"", 10, True, cur.encode()])
+        vals.append([2, 60000, ops])
+        plans.append((1 if c["warm"] else 0, natt))
+    for c, m, (w, natt) in zip(cs, ctx.run_model(vals), plans):
+        atts = m[w:w + natt]
+        ok, got, calls = False, "", 0
+        for a in atts:
+            calls += 1 if a[2] else 0
+            if a[0]:
+                ok, got = True, bytes.fromhex(a[1]).decode()
+                break
+        later = m[-1]
+        exp = (ok, got, calls, bool(later[0]), bytes.fromhex(later[1]).decode(), 1 if later[2] else 0)
+        obs = (c["ok"], c["got_id"], c["token_calls"], c["later"]["ok"], c["later"]["id"], c["later_calls"])
+        if exp != obs:
+            _corr(ctx, "retry-cache", "cache under retries: model %s, implementation %s" % (exp, obs), {"cases": [c]}, "c15sched", cnt)
+    return cnt[0]
+
+# ---------------------------------------------------------------------------------------------------- worker pool
+def oracle_life(ctx, cases, notes, distinct):
+    n = 0
+    for c in cases:
+        rp = {"cmd": "c15life", "cases": [c]}
+        if c["kind"] == "precancel":
+            n += 1
+            notes["already-ended context"] = "doRetry still makes one call to the transport (%d), no connection reaches the socket (%d), error %s" % (c["transport_calls"], c["connections"], c["err"])
+            if c["connections"] != 0 or not c["is_canceled"]:
+                ctx.violation("C15:spec:attempt-after-cancel", "a request reached the wire although the caller's context had already ended", rp)
+            continue
+        distinct.add("life:" + c["scenario"])
+        if c["left_after"]:
+            ctx.violation("C15:life:worker-left-after-close", "%d worker process(es) still alive after Close in scenario %s" % (c["left_after"], c["scenario"]), rp)
+        if c["scenario"] == "start-exits":
+            n += 1
+            if "exited prematurely" not in (c.get("new_err") or ""):
+                ctx.violation("C15:life:start-failure-not-reported", "a worker that exits at start-up: New returned %r" % c.get("new_err"), rp)
+            continue
+        if c.get("new_err"):
+            ctx.violation("C15:driver-crash:c15life", "scenario %s could not start: %s" % (c["scenario"], c["new_err"]), rp, False)
+            continue
+        for r in c["reqs"] or []:
+            n += 1
+            if r["ok"] and r["what"] == "sign" and not r["sig_ok"]:
+                ctx.violation("C15:spec:value-roundtrip", "scenario %s: request %d reported success with a signature that does not verify" % (c["scenario"], r["rid"]), rp)
+            if not r["ok"]:
+                notes.setdefault("failed requests", []).append("%s #%d: %s (attempts %d, retryable %s)" % (c["scenario"], r["rid"], r["err_text"][-60:], r["attempts"], r["temporary"]))
+                if r["temporary"] and r["attempts"] < 2 and c["scenario"] != "start-exits":
+                    ctx.violation("C15:spec:transient-not-retried", "scenario %s: a retryable failure (%s) after a single attempt" % (c["scenario"], r["err_text"]), rp)
+        if c.get("ops"):
+            signs = [o for o in c["ops"] if o.startswith("sign")]
+            logical = len([r for r in c["reqs"] if r["what"] == "sign"])
+            notes["sign executions / logical signing requests (%s)" % c["scenario"]] = "%d / %d" % (len(signs), logical)
+    return n
+
+def corr_life(ctx, cases):
+    cs = [c for c in cases if c["kind"] == "life" and c.get("events")]
+    if not cs:
+        return 0
+    cnt = [0]
+    vals = [[6, c["target"], c["events"]] for c in cs]
+    for c, m in zip(cs, ctx.run_model(vals)):
+        fates, procs, nspawn, nfail, mon, backlog, inflight = m
+        fate = {int(f[0]): int(f[1]) for f in fates}
+        rp = {"cases": [c], "model": str(m)[:600]}
+        bad = None
+        if c["scenario"] != "start-exits" and nspawn != c["spawned"]:
+            bad = "model starts %d workers, %d were seen" % (nspawn, c["spawned"])
+        for r in c["reqs"] or []:
+            f = fate.get(r["rid"])
+            if r["ok"] and f != 0:
+                bad = bad or "request %d succeeded; its fate in the model is %s" % (r["rid"], f)
+            if not r["ok"]:
+                want = {(2, 9): 2, (2, 1): 1, (2, 3): 3}.get(tuple(r["err_class"]))
+                if f != want:
+                    bad = bad or "request %d failed as %s; its fate in the model is %s" % (r["rid"], r["err_class"], f)
+                # the model's outcome class for that fate decides the retry: compare with the implementation's verdict
+                if want is not None and r["temporary"] != (want in (1, 3)):
+                    bad = bad or "request %d: retryable=%s, model says %s" % (r["rid"], r["temporary"], want in (1, 3))
+            att_model = len([1 for e in c["events"] if e[0] == 6 and e[1] in (r["rid"], r["rid"] * 10)])
+            if att_model != r["attempts"]:
+                bad = bad or "request %d took %d attempts, the enacted event sequence has %d" % (r["rid"], r["attempts"], att_model)
+        if backlog or inflight:
+            bad = bad or "requests left waiting in the model: %s %s" % (backlog, inflight)
+        if c["scenario"] == "respawn-backoff":
+            sp = c.get("spawn_at_ms") or []
+            if nfail != 1 or len(sp) != 3 or sp[2] - sp[1] < 10000 - 60:
+                bad = bad or "restart backoff: model failures %d, spawn instants %s" % (nfail, sp)
+        if bad:
+            _corr(ctx, "life", "worker pool (%s): %s" % (c["scenario"], bad), rp, "c15life", cnt)
+    return cnt[0]
+
 def run(ctx, replay=None):
-    st = ctx.prepare(["C15_gen"], ["C15"], "C15.Run")
+    st = ctx.prepare(["C15_gen", "C14_gen"], ["C15"], "C15.Run")     # C14_gen: the cache interleaving machine of unit C14 is reused
     if not st["harness_ok"]:
         return ctx.finish("proof", ctx.proof_coverage([], FP), [])
     outs = {}
-    for cmd in ("c15", "c15handler", "c15cache"):
+    CMDS = [("c15", []), ("c15handler", []), ("c15cache", []), ("c15timed", []), ("c15rpc", []), ("c15sched", []),
+            ("c15life", ["a"]), ("c15life", ["b"])]
+    def one(cmd, args):
+        key = cmd + "".join(args)
         if replay:
             rp = json.load(open(replay))
-            outs[cmd] = rp.get("cases", []) if rp.get("cmd") == cmd else []
-            continue
-        rc, out, err = ctx.drv([cmd], timeout=300)
+            outs[key] = rp.get("cases", []) if rp.get("cmd") == key else []
+            return
+        rc, out, err = ctx.drv([cmd] + args, timeout=300)
         if rc != 0:
-            ctx.violation("C15:driver-crash:" + cmd, "driver failed: " + err[-600:], {"stderr": err[-3000:]}, False)
-        outs[cmd] = [json.loads(l) for l in out.splitlines() if l.strip()]
+            ctx.violation("C15:driver-crash:" + key, "driver failed: " + err[-600:], {"stderr": err[-3000:]}, False)
+        outs[key] = [json.loads(l) for l in out.splitlines() if l.strip().startswith("{")]
+    ths = [threading.Thread(target=one, args=a) for a in CMDS]
+    for t in ths:
+        t.start()
+    for t in ths:
+        t.join()
     retry, hand, cache = outs["c15"], outs["c15handler"], outs["c15cache"]
     n_eval = 0
     distinct = set()
@@ -120,8 +602,29 @@ def run(ctx, replay=None):
                 if (bool(mo[0]), bytes.fromhex(mo[1]).decode(), bool(mo[2])) != (o["ok"], o["id"], o["called"]):
                     corr("cache", "cache: model %s vs implementation %s" % (mo, o), {"cases": [c]}, "c15cache")
                     break
+    # =========================================================================================== extensions
+    timed, rpc, sched = outs.get("c15timed", []), outs.get("c15rpc", []), outs.get("c15sched", [])
+    life = outs.get("c15lifea", []) + outs.get("c15lifeb", [])
+    ext = {"timed": len(timed), "rpc": len(rpc), "sched": len(sched), "life": len(life)}
+    n_eval += oracle_timed(ctx, timed, distinct)
+    n_eval += oracle_rpc(ctx, rpc, distinct)
+    n_eval += oracle_sched(ctx, sched, distinct)
+    life_notes = {}
+    n_eval += oracle_life(ctx, life, life_notes, distinct)
+    if st["model_ok"]:
+        n_corr += corr_timed(ctx, timed)
+        n_corr += corr_rpc(ctx, rpc)
+        n_corr += corr_retry_cache(ctx, sched)
+        n_corr += corr_life(ctx, life)
     ctx.proof_verdict()
-    cov = ctx.proof_coverage(["srcgen: retry constants, loop/retry/give-up conditions, statusIsTemporary, Temporary class list, cache conditions, cookie gate",
+    if not st["proofs_ok"] and not other_failing_input(ctx) and not any(v[3] == ctx.pid + ":proof" for v in ctx.violations):
+        what = st["broken"] or st["hygiene"] or [t for t, v in st["built"].items() if not v] or ["no theorems found"]
+        ctx.violation(ctx.pid + ":proof", "proof obligations no longer check: %s" % (what,),
+                      {"broken": what, "coq_log_tail": (ctx.coq or {}).get("log_tail", "")[-2500:]}, False)
+    cov = ctx.proof_coverage(["srcgen (extensions): per-attempt timeout and float32 backoff arithmetic of doRetry, statement skeletons of doRetry / doOnce / request / Temporary / ServeHTTP / handle / monitor / spawn / Close / removePid, RPC method table, message structs, client call sites, handler dispatch table (fields read / set, token operations), error classification table, cookie header names, worker pool constants",
+                              "harness (extensions): c15timed (attempt durations, per-attempt timeout, cancellation / deadline at chosen instants), c15rpc (real client <-> real handler for every method and class of token answer, the gate, malformed requests), c15sched (forced interleavings on the real Cache, retried lookups across a rotation), c15life (real worker.New / monitor / Close with real child processes on real sockets; the real `relic worker` command over a file token and scripted children)",
+                              "encoding/json round trip of the message structs and the kernel's accept queue are assumed by the model and observed by the harness; C14's interleaving machine is reused for the cache theorems",
+                              "srcgen: retry constants, loop/retry/give-up conditions, statusIsTemporary, Temporary class list, cache conditions, cookie gate",
                               "harness cmd/drv c15*: real doRetry/doOnce via http.DefaultClient with a scripted RoundTripper; real worker handler; real tokencache.Cache (hooks token/worker/verif_hooks.go, cmdline/workercmd/verif_hooks.go)",
                               "subprocess worker, pkcs11 and real sockets are not exercised; float32 backoff compared within [-30,+2500] ms"], FP)
     kinds = {}
@@ -130,5 +633,6 @@ def run(ctx, replay=None):
     cov.update({"evaluations": n_eval, "distinct_nontrivial": len(distinct),
                 "rule": "fault sequences: every transient prefix of length <=1 (sampled deeper) x every terminal outcome for retry limits 1..3 (4 thorough), exhaustion, default/negative limits, cancellation in each wait and during a hanging attempt; handler: cookie variants x error types x RPC paths; cache: random op sequences with rotation/expiry. distinct = distinct (limit, script, cancel point)",
                 "samples": [{"retries": c["retries"], "script": c["script"], "result": c["result"], "attempts": c["attempts"], "gaps_ms": c["gaps_ms"]} for c in retry[60:63]],
-                "input_distribution": kinds, "handler_cases": len(hand), "cache_sequences": len(cache), "model_mismatches": n_corr})
+                "input_distribution": kinds, "handler_cases": len(hand), "cache_sequences": len(cache), "model_mismatches": n_corr,
+                "extension_cases": ext, "lifecycle_observations": life_notes})
     return ctx.finish("proof", cov, ["wall-clock tolerance on delays", "transport errors synthesised by a RoundTripper, not by sockets"])
